@@ -67,7 +67,12 @@ func execStep(context *exprContext, expr *grammar.Grammar) error {
 		}
 	}
 
+	implicitChildAxis := false
+
 	switch nextBsr.Label.Slot().NT {
+	case symbols.NT_FunctionCall:
+		// A function call in a path receives the whole node-set as its context.
+		return execContext(context, expr.Next(nextBsr))
 	case symbols.NT_NodeTest,
 		symbols.NT_NodeTestAndPredicate,
 		symbols.NT_NodeTestNodeTypeNoArgTest,
@@ -83,17 +88,62 @@ func execStep(context *exprContext, expr *grammar.Grammar) error {
 		symbols.NT_NameTestQNameNamespaceWithLocalReservedNameConflictBoth,
 		symbols.NT_NameTestQNameLocalOnly,
 		symbols.NT_NameTestQNameLocalOnlyReservedNameConflict:
-		nodeSet, ok := context.result.(NodeSet)
+		implicitChildAxis = true
+	}
+
+	nodeSet, ok := context.result.(NodeSet)
+
+	if !ok {
+		return errQueryNonNodeset
+	}
+
+	// The step is evaluated separately for each context node, so that its
+	// predicates see the nodes selected from that context node only, in the
+	// order of the axis, with their number as the context size.
+	contextNodes := make([]NodeSet, 0, len(nodeSet))
+
+	for _, i := range nodeSet {
+		contextNodes = append(contextNodes, NodeSet{i})
+	}
+
+	if len(contextNodes) == 0 {
+		contextNodes = append(contextNodes, NodeSet{})
+	}
+
+	result := make(NodeSet, 0)
+	reverseAxis := false
+
+	for _, i := range contextNodes {
+		stepContext := context.copy()
+		stepContext.result = i
+		stepContext.reverseAxis = false
+
+		if implicitChildAxis {
+			stepContext.result = selectChild(i)
+			stepContext.principal = principalElement
+		}
+
+		if err := execContext(&stepContext, expr.Next(nextBsr)); err != nil {
+			return err
+		}
+
+		stepResult, ok := stepContext.result.(NodeSet)
 
 		if !ok {
 			return errQueryNonNodeset
 		}
 
-		context.result = selectChild(nodeSet)
-		context.principal = principalElement
+		result = append(result, stepResult...)
+		reverseAxis = stepContext.reverseAxis
 	}
 
-	return execContext(context, expr.Next(nextBsr))
+	if reverseAxis {
+		context.result = cleanupBackwardAxis(result)
+	} else {
+		context.result = cleanupForwardAxis(result)
+	}
+
+	return nil
 }
 
 func execPredicate(context *exprContext, expr *grammar.Grammar) error {
@@ -109,6 +159,7 @@ func execPredicate(context *exprContext, expr *grammar.Grammar) error {
 		nextContext := context.copy()
 		nextContext.result = NodeSet{nodeSet[i]}
 		nextContext.contextPosition = i
+		nextContext.contextSize = len(nodeSet)
 		left, err := leftOnlyIndependentResult(&nextContext, expr)
 
 		if err != nil {
@@ -450,8 +501,10 @@ func execAxisName(context *exprContext, expr *grammar.Grammar) error {
 		context.principal = principalAttribute
 	case "ancestor":
 		result = selectAncestor(nodeSet)
+		context.reverseAxis = true
 	case "ancestor-or-self":
 		result = selectAncestorOrSelf(nodeSet)
+		context.reverseAxis = true
 	case "descendant":
 		result = selectDescendant(nodeSet)
 	case "descendant-or-self":
@@ -467,8 +520,10 @@ func execAxisName(context *exprContext, expr *grammar.Grammar) error {
 		result = selectParent(nodeSet)
 	case "preceding":
 		result = selectPreceding(nodeSet)
+		context.reverseAxis = true
 	case "preceding-sibling":
 		result = selectPrecedingSibling(nodeSet)
+		context.reverseAxis = true
 	default: // self
 		return nil
 	}
